@@ -248,4 +248,27 @@ def run(pid, tier, seed, res, drv, replay=None):
         cl, _, _ = eval_one(pid, small)
         cc = next((x for x in cl if clause_key(x) == key), c)
         res.violations.append((cc, {"kind": "scenario", "scenario": small, "original": sc if small != sc else None}))
+    # the same corpus under python 3.11 when present (asyncio.gather yields there: defect D10 needs it)
+    if pid in ("C01", "C02", "C12") and not replay:
+        alt = "/root/.pyenv/versions/3.11.7/bin/python"
+        if os.path.exists(alt):
+            import subprocess
+            p = subprocess.run([alt, os.path.join(os.path.dirname(os.path.abspath(__file__)), "alt_corpus.py"), pid, str(seed), "150"],
+                               capture_output=True, text=True, timeout=600)
+            try:
+                info = json.loads(p.stdout.strip().split("\n")[-1])
+                res.dist["alt_interpreter"] = {"python": info["python"], "scenarios": info["scenarios"], "violations": len(info["violations"])}
+                for v in info["violations"]:
+                    res.violations.append((v["clauses"][0] + " [under python %s]" % info["python"],
+                                           {"kind": "scenario", "scenario": v["scenario"], "interpreter": alt}))
+            except Exception:       # noqa
+                res.notes.append("alternate interpreter run failed: " + (p.stderr or p.stdout)[-300:])
+        else:
+            res.notes.append("python 3.11 not present: corpus not run under a yielding asyncio.gather")
+    pairs = sum(st.get("pairs", 0) for _, _, _, st, _, _ in results)
+    twins = sum(1 for _, _, _, st, _, _ in results if st.get("twin"))
+    if pid == "C06":
+        res.dist["metamorphic_pairs"] = {"pairs": pairs}
+    if pid == "C10":
+        res.dist["flatten_twins"] = {"twins": twins}
     res.notes.append("scenario phase %.1fs" % (time.time() - t0))
